@@ -361,17 +361,26 @@ func genC08(r *Rng, tier string) []Case {
 		}
 		date := baseDate + int64(r.Intn(1000))
 		expires := date + int64(r.Intn(700000))
-		if r.Chance(1, 12) {
-			date = []int64{0, -1, -75, math.MaxInt64, math.MinInt64, 1<<32 - 1, 1 << 32}[r.Intn(7)]
+		if r.Chance(1, 8) {
+			date = []int64{0, -1, -75, math.MaxInt64, math.MinInt64, 1<<32 - 1, 1 << 32, 1<<31 - 1, 1 << 31, 1<<31 + 5, 2208988800, 1<<16 - 1, 1 << 16, 255, 256, 23, 24}[r.Intn(17)]
 		}
-		if r.Chance(1, 12) {
-			expires = []int64{0, -1, math.MaxInt64, 1 << 32}[r.Intn(4)]
+		if r.Chance(1, 8) {
+			expires = []int64{0, -1, math.MaxInt64, 1 << 32, 1<<31 - 1, 1 << 31, 1<<32 - 1, 2208988800}[r.Intn(8)]
 		}
 		cs = append(cs, Case{"sxg_signed_message", []Sx{ex, L(certs...), B([]byte(validity)), Zi(date), Zi(expires)}})
 		certURL := []string{"https://cert.example.org/cert.cbor", "data:application/cert-chain+cbor;base64,AAAA", "http://cert.example.org/c", "https://example.com/c?x=1"}[r.Intn(4)]
 		cs = append(cs, Case{"sxg_sigheader", []Sx{ex, L(certs...), B([]byte(certURL)), B([]byte(validity)), Zi(date), Zi(expires)}})
 		e.SignatureHeaderValue = "label;sig=*AA==*"
 		cs = append(cs, Case{"sxg_write", []Sx{exchangeInSx(e)}})
+		// histories on ONE exchange object: observe, edit, observe again
+		if i%3 == 0 {
+			acts := []Sx{L(Sym("integrity")), L(Sym("headers")), L(Sym("addresp"), B([]byte("X-Edited")), B([]byte("1"))), L(Sym("integrity")), L(Sym("headers")), L(Sym("write")),
+				L(Sym("status"), Zi(404)), L(Sym("integrity")), L(Sym("write")), L(Sym("miencode"), Zi(16)), L(Sym("integrity")), L(Sym("write")), L(Sym("payload"), B([]byte("zz"))), L(Sym("write")), L(Sym("integrity"))}
+			if ver != version.Version1b3 {
+				acts = append(acts, L(Sym("addreq"), B([]byte("Accept")), B([]byte("x"))), L(Sym("integrity")), L(Sym("method"), B([]byte("HEAD"))), L(Sym("headers")))
+			}
+			cs = append(cs, Case{"sxg_history", []Sx{ex, L(acts...)}})
+		}
 	}
 	return cs
 }
